@@ -159,4 +159,9 @@ def run(R):
         R.fail('C12.GRD.1', inst, cm.qual, 'def compile', f'compiler passes run as {order}', site(cm, cm.f.node))
     R.ob('C12.SIG.1', 'trie-edge merge key of a rule chain spells out every stored constraint value, with nested lists bracketed (chains are merged only when their constraints are equal)')
     merge_key_rule(R, 'C12.SIG.1')
+    # which signers a rule has after rule references are expanded is decided by the C11 rule on _replicate_rules
+    from .common import shared_obligations
+    R.ob('C12.SHR.1', 'shared with C11: expanding a rule reference keeps the signers of the referring rule only (a referenced rule lends its name '
+                      'and constraints, not its signers)')
+    shared_obligations(R, 'C12.SHR.1', 'C11', {'C11.PRV.1': None})
     R.assumptions += ['the relation over all schema / name pairs is not decided; only the structure of check() and of the reference fix-up']
